@@ -547,7 +547,10 @@ func (s *scenario) run(walk []act) {
 	s.events = append(s.events, map[string]any{"ev": "reset"})
 }
 
-func main() { vf.Main("C20", "model_checking", run) }
+func main() {
+	vf.GuardFatal = true
+	vf.Main("C20", "model_checking", run)
+}
 
 func run(c *vf.Ctx) {
 	c.Rule("M: TLC exhaustive on Lifecycle: 2 instances, tun on/off x API listener yes/no, module-level interleaving of start/stop of both, worker churn, peering, start failures; liveness StopCompletes for one instance under fairness; 2 negative controls. R: TLC simulation walks over 2 instances x 3 cycles, executed with real mycoria.New/Start/Stop on generated relay-only configurations (universe/secret, lite, stub, isolate, 0-2 services, 0-2 friends, memory or JSON state, API listener, 1-2 listeners, connect) peering over loopback TCP. T: per-module started/stopped records, worker counts and results judged by TLC. distinct = distinct (macro sequence, configuration) pairs")
